@@ -895,6 +895,17 @@ func c10ClassifyURL(in c10In, outs, outs2 []c10Out) []string {
 	if u, ok := c10Substituted(in); ok && strings.HasPrefix(u, "//") && !strings.HasPrefix(u, "///") && len(outs) == 1 {
 		out = append(out, "clienturl.leading_double_slash")
 	}
+	// F-C10-5: the substituted path is relative (a base path without a leading slash whose segments a dot-dot segment of the
+	// pattern removed, or an empty one) and its first segment holds a colon: the URL parser reads scheme:opaque, the path is lost
+	if u, ok := c10Substituted(in); ok && !strings.HasPrefix(u, "/") && len(outs) == 1 {
+		first := u
+		if i := strings.IndexByte(first, '/'); i >= 0 {
+			first = first[:i]
+		}
+		if strings.Contains(first, ":") {
+			out = append(out, "clienturl.relative_first_segment_colon")
+		}
+	}
 	// F-C10-4: stray braces in the pattern make the sequential replacement depend on the map order
 	if c10StrayBrace(joined) && (len(outs) > 1 || len(outs2) > 1) {
 		out = append(out, "clienturl.stray_brace_order")
